@@ -1,0 +1,44 @@
+//go:build verif
+
+package messagequeue
+
+import (
+	"context"
+	"time"
+
+	bswl "github.com/ipfs/boxo/bitswap/client/wantlist"
+	cid "github.com/ipfs/go-cid"
+	peer "github.com/libp2p/go-libp2p/core/peer"
+)
+
+// VerifNew builds a MessageQueue for the verification harness: no DONT_HAVE
+// timeout manager, no event channel, caller-chosen message size limit. The run
+// loop is not started; the harness drives the sender side with VerifSendMessage
+// and VerifRebroadcast from its own goroutine.
+func VerifNew(ctx context.Context, p peer.ID, network MessageNetwork, maxMsgSize int) *MessageQueue {
+	return newMessageQueue(ctx, p, network, maxMsgSize, sendErrorBackoff, maxValidLatency, nil, nil)
+}
+
+// VerifSendMessage runs one sendMessage (what the run loop does on outgoing work).
+func (mq *MessageQueue) VerifSendMessage() { mq.sendMessage() }
+
+// VerifRebroadcast runs rebroadcastWantlist with interval 0 (what RebroadcastNow triggers).
+func (mq *MessageQueue) VerifRebroadcast() { mq.rebroadcastWantlist(time.Now(), 0) }
+
+// VerifDump is a copy of the queue's lists, taken under wllock.
+type VerifDump struct {
+	PeerPending, PeerSent, BcstPending, BcstSent []bswl.Entry
+	Cancels                                       []cid.Cid
+}
+
+// VerifDump copies the pending/sent lists and the cancel set.
+func (mq *MessageQueue) VerifDump() VerifDump {
+	mq.wllock.Lock()
+	defer mq.wllock.Unlock()
+	cp := func(w *bswl.Wantlist) []bswl.Entry { return append([]bswl.Entry(nil), w.Entries()...) }
+	return VerifDump{
+		PeerPending: cp(mq.peerWants.pending), PeerSent: cp(mq.peerWants.sent),
+		BcstPending: cp(mq.bcstWants.pending), BcstSent: cp(mq.bcstWants.sent),
+		Cancels: mq.cancels.Keys(),
+	}
+}
